@@ -26,7 +26,7 @@ type osSession struct {
 func (osSession) Devmod(context.Context) (serviceinfo.Devmod, []string, bool, error) {
 	return serviceinfo.Devmod{Os: "linux", Arch: "amd64", Version: "1", Device: "verif", FileSep: ";", Bin: "amd64"}, []string{"m"}, true, nil
 }
-func (osSession) MTU(context.Context) (uint16, error)           { return 1300, nil }
+func (osSession) MTU(context.Context) (uint16, error)         { return 1300, nil }
 func (osSession) GUID(context.Context) (protocol.GUID, error) { return protocol.GUID{1}, nil }
 
 type osVouchers struct {
